@@ -62,13 +62,18 @@ func TestVerifC06(t *testing.T) {
 		l3fixed = append(l3fixed, l2spec{-1, bi, c06PeerType(bi % 3), bi%2 == 0})
 	}
 	nL3 := vlib.Scale(len(l3fixed), 6000)
-	total := nBase + nSingle + nPairs + nL2 + nL3
+	// layer 4 (several sessions per neighbour, capabilities changing): every single-capability flip in both
+	// directions x peer type x treat-as-withdraw, then PRNG plans of 2-3 sessions
+	nL4fixed := 12 * 6
+	nL4 := vlib.Scale(nL4fixed+48, 3000)
+	total := nBase + nSingle + nPairs + nL2 + nL3 + nL4
 	pool := &c06Pool{}
 	defer pool.close()
 	only := os.Getenv("VERIF_C06_ONLY") // debugging aid: "l1" or "l2" runs one layer's cases only
 	vlib.Cases(total, func(idx int) {
-		l3 := idx >= nBase+nSingle+nPairs+nL2
-		if only == "l1" && idx >= nBase+nSingle+nPairs || only == "l2" && (idx < nBase+nSingle+nPairs || l3) || only == "l3" && !l3 {
+		l4 := idx >= nBase+nSingle+nPairs+nL2+nL3
+		l3 := idx >= nBase+nSingle+nPairs+nL2 && !l4
+		if only == "l1" && idx >= nBase+nSingle+nPairs || only == "l2" && (idx < nBase+nSingle+nPairs || l3 || l4) || only == "l3" && !l3 || only == "l4" && !l4 {
 			return
 		}
 		switch {
@@ -93,6 +98,21 @@ func TestVerifC06(t *testing.T) {
 			}
 			rec.Mark(fmt.Sprintf("c06 l1 pair base %d faults %s+%s", bi, faults[i].id, faults[j].id), false)
 			c06L1Pair(rec, pool, idx, bi, faults[i], faults[j], r)
+		case l4:
+			k := idx - nBase - nSingle - nPairs - nL2 - nL3
+			r := vlib.CaseRand("c06l4", idx)
+			var plan []c06Sess
+			if k < nL4fixed {
+				plan = c06L4Plan(r, k%12, c06PeerType(k/12%3), k/36 == 0)
+			} else {
+				plan = c06L4Plan(r, -1, c06PeerType(r.IntN(3)), r.IntN(3) != 0)
+			}
+			var hs []string
+			for _, s := range plan {
+				hs = append(hs, s.caps())
+			}
+			rec.Mark(fmt.Sprintf("c06 l4 %s sessions %v", plan[0], hs), true)
+			synctest.Test(t, func(t *testing.T) { c06L4Case(t, rec, idx, r, plan, faults) })
 		case l3:
 			k := idx - nBase - nSingle - nPairs - nL2
 			r := vlib.CaseRand("c06l3", idx)
